@@ -111,7 +111,8 @@ fn exec(ctx: &mut Ctx, arena: &Arena, h: &[u8], kinds: &[u16], part: &'static st
 fn run(ctx: &mut Ctx) {
     let arena = Arena::new(2);
     let getters: Vec<u16> = (1..=10).collect();
-    ctx.bound("fields", "every header-tag kind 0..=10: sample image and every single-byte perturbation of flags and body bytes with {00,01,02,04,08,10,20,40,80,FF} (enumerated fields kept inside their defined values), both architectures; header [filler][tag][end]; the header's four words, the tag walk and every accessor compared with the reference decoder");
+    let quick = ctx.quick();
+    ctx.bound("fields", "every header-tag kind 0..=10: sample image and every single-byte perturbation of flags and body bytes with {00,01,02,04,08,10,20,40,80,FF} (quick) / all 256 values (thorough) (enumerated fields kept inside their defined values), both architectures; header [filler][tag][end]; the header's four words, the tag walk and every accessor compared with the reference decoder");
     for kind in 0..=10u16 {
         let n = if kind == hd::INFO_REQ { 3 } else { 0 };
         for arch in [0u32, 4] {
@@ -123,7 +124,7 @@ fn run(ctx: &mut Ctx) {
                 }
             }
             for p in 8..img.len() {
-                for &v in &PERT {
+                for v in (0..=255u8).filter(|v| !quick || PERT.contains(v)) {
                     if v != img[p] && legal(kind, &img, p, v) {
                         cases.push((p, v));
                     }
